@@ -74,15 +74,21 @@ def np_dtype(dt):
 
 
 def field_array(fd, shape):
+    """data of one field; "p": 4 selects the 4-byte dtypes (int32 / float32 / complex64)"""
     re = np.array([float(Fraction(v)) for v in fd["re"]], dtype=np.float64)
+    low = fd.get("p", 8) == 4
     if fd["dt"] == "c":
         im = np.array([float(Fraction(v)) for v in fd["im"]], dtype=np.float64)
-        arr = re + 1j * im
+        arr = (re + 1j * im).astype(np.complex64 if low else np.complex128)
     elif fd["dt"] == "i":
-        arr = re.astype(np.int64)
+        arr = re.astype(np.int32 if low else np.int64)
     else:
-        arr = re
+        arr = re.astype(np.float32 if low else np.float64)
     return arr.reshape(shape)
+
+
+def low_precision(case):
+    return any(fd.get("p", 8) == 4 for fd in case["fields"])
 
 
 class Built:
@@ -352,7 +358,7 @@ def _num(s):
     return Fraction(s)
 
 
-def _close(impl_re, impl_im, m_re, m_im, sq, exact):
+def _close(impl_re, impl_im, m_re, m_im, sq, exact, TOL=TOL):
     """impl_* exact Fractions of the floats the code returned; m_* the model's exact rationals"""
     if sq:
         # the model lists the square of a real non-negative answer (std, norm, |z|)
@@ -368,7 +374,7 @@ def _close(impl_re, impl_im, m_re, m_im, sq, exact):
     return abs(float(impl_re - m_re)) <= TOL * scale and abs(float(impl_im - m_im)) <= TOL * scale
 
 
-def agree(impl, model, exact):
+def agree(impl, model, exact, tol=TOL):
     """True iff the canonical implementation result matches the model result (class E: exactly; T: 1e-9)"""
     if "error" in impl or "error" in model:
         return impl.get("error") == model.get("error")
@@ -380,16 +386,16 @@ def agree(impl, model, exact):
     if k == "mf":
         if [l[0] for l in impl["leaves"]] != [l[0] for l in model["leaves"]]:
             return False
-        return all(agree(a[1], b[1], exact) for a, b in zip(impl["leaves"], model["leaves"]))
+        return all(agree(a[1], b[1], exact, tol) for a, b in zip(impl["leaves"], model["leaves"]))
     if impl["dt"] != model["dt"]:
         return False
     sq = bool(model.get("sq"))
     if k == "s":
-        return _close(_num(impl["re"]), _num(impl["im"]), _num(model["re"]), _num(model["im"]), sq, exact)
+        return _close(_num(impl["re"]), _num(impl["im"]), _num(model["re"]), _num(model["im"]), sq, exact, tol)
     if k == "f":
         if impl["shape"] != model["shape"] or len(impl["re"]) != len(model["re"]):
             return False
-        return all(_close(_num(a), _num(b), _num(c), _num(d), sq, exact)
+        return all(_close(_num(a), _num(b), _num(c), _num(d), sq, exact, tol)
                    for a, b, c, d in zip(impl["re"], impl["im"], model["re"], model["im"]))
     return False
 
